@@ -508,20 +508,4 @@ theorem loopGo_congr (g g' : Deps) (h : ∀ i d, d ∈ depsOf g i ↔ d ∈ deps
       | none => rfl
       | some r => obtain ⟨p, v, q⟩ := r; exact ih _ _
 
-theorem sameDeps_mem (gy gg : Deps) (h : sameDeps gy gg = true) :
-    gy.length = gg.length ∧ ∀ i d, d ∈ depsOf gy i ↔ d ∈ depsOf gg i := by
-  unfold sameDeps at h
-  simp only [Bool.and_eq_true, beq_iff_eq, List.all_eq_true, List.mem_range, subset] at h
-  obtain ⟨hlen, hall⟩ := h
-  refine ⟨hlen, ?_⟩
-  intro i d
-  by_cases hi : i < gy.length
-  · obtain ⟨h1, h2⟩ := hall i hi
-    constructor
-    · intro hd; simpa using h1 d hd
-    · intro hd; simpa using h2 d hd
-  · have h1 : depsOf gy i = [] := by unfold depsOf; simp [List.getD, List.getElem?_eq_none (by omega : gy.length ≤ i)]
-    have h2 : depsOf gg i = [] := by unfold depsOf; simp [List.getD, List.getElem?_eq_none (by omega : gg.length ≤ i)]
-    simp [h1, h2]
-
 end YaegiVerif.Proofs.C15
